@@ -78,6 +78,7 @@ func runFaults(r *ev.Run) (int64, int64) {
 				return 0, nil
 			}
 			s := vsched.New(c, 20000, "EventsList", "Clients")
+			s.SpinFree = 16
 			var want []string
 			s.Spawn("driver", func() {
 				for i := 0; i < 4; i++ {
@@ -162,6 +163,7 @@ func runSchedules(r *ev.Run) (int64, int64) {
 			v := preAuth(ts.T, "V", "op2")
 			base := len(ts.T.EventsList)
 			s := vsched.New(c, 20000, "EventsList", "Clients", "Authenticated", "sync.Mutex")
+			s.SpinFree = 16
 			aid := fmt.Sprintf("%08x", idA)
 			opDone, lsDone := false, false
 			s.Spawn("operator", func() {
@@ -308,6 +310,7 @@ func runReplayVsRemove(r *ev.Run) (int64, int64) {
 		ts.T.Clients.Store("U", &server.Client{GlobalIP: "10.1.1.1:5", Connection: u.Conn, Packager: packager.NewPackager()})
 		u.SendText(fmt.Sprintf(`{"Head":{"Event":1,"User":"op1"},"Body":{"SubEvent":3,"Info":{"User":"op1","Password":"%s"}}}`, digest("pw1")))
 		s := vsched.New(c, 20000, "EventsList", "Listeners", "sync.Mutex")
+		s.SpinFree = 16
 		rmDone := false
 		s.Spawn("join-U", func() { ts.T.VerifHandleRequest("U") })
 		s.Spawn("remover", func() {
@@ -450,6 +453,7 @@ func runJoinVsRegister(r *ev.Run) (int64, int64) {
 		ts.MustRegister(idA, 1)
 		v := preAuth(ts.T, "V", "op2")
 		s := vsched.New(c, 20000, "EventsList", "Clients", "Authenticated", "Agents", "sync.Mutex")
+		s.SpinFree = 16
 		u := fake.NewWS("U")
 		ts.T.Clients.Store("U", &server.Client{GlobalIP: "10.1.1.1:5", Connection: u.Conn, Packager: packager.NewPackager()})
 		u.SendText(fmt.Sprintf(`{"Head":{"Event":1,"User":"op1"},"Body":{"SubEvent":3,"Info":{"User":"op1","Password":"%s"}}}`, digest("pw1")))
@@ -539,6 +543,7 @@ func runRemoveVsRecord(r *ev.Run) (int64, int64) {
 		}
 		chat(1)
 		s := vsched.New(c, 20000, "EventsList", "Listeners", "sync.Mutex")
+		s.SpinFree = 16
 		s.Spawn("remover", func() {
 			dispatch(ts.T, packager.Type.Listener.Type, packager.Type.Listener.Remove, map[string]any{"Name": "L1"})
 		})
@@ -631,6 +636,7 @@ func runStall(r *ev.Run) (int64, int64) {
 			return 0, nil
 		}
 		s = vsched.New(c, 20000, "EventsList", "Clients")
+		s.SpinFree = 16
 		s.Spawn("listener-error", func() { ts.T.EventListenerError("n1", errors.New("listen: boom")) })
 		s.Spawn("broadcaster", func() {
 			ts.T.AgentConsole(fmt.Sprintf("%08x", idA), 0x80, map[string]string{"Type": "Good", "Message": "m"})
